@@ -272,6 +272,12 @@ Inductive fkind :=
 | FAddrs              (* []net.Addr: u16 byte length + address descriptors, re-encoded from the
                          parsed addresses (padding descriptors dropped, IPv4-mapped tcp6 -> tcp4) *)
 | FBigSize            (* tlv.ReadVarInt / WriteVarInt: a BigSize integer, minimal encodings only *)
+| FScids              (* encodeShortChanIDs / decodeShortChanIDs with the PLAIN encoding: u16 n;
+                         n = 0: no ids; else n bytes = encoding byte 0 ++ 8-byte ids, strictly
+                         increasing.  Encode always writes the encoding byte (n = 8*count + 1), so
+                         the empty list `00 00` re-encodes as `00 01 00`.  zlib (encoding byte 1)
+                         is NOT modelled: dec_f rejects it and props/c10.py keeps such inputs out
+                         of the model comparison (they stay under the Go-side predicates). *)
 | FRest               (* ExtraOpaqueData read with io.ReadAll: all remaining bytes *)
 | FTlvRest.           (* ExtraOpaqueData + ValidateTLV (DecodeP2P with no known records) *)
 
@@ -362,6 +368,19 @@ Fixpoint addrs_norm (fuel : nat) (b : bytes) : option bytes :=
 
 Definition addrs_parse (b : bytes) : option bytes := addrs_norm (S (length b)) b.
 
+(* short channel ids: k chunks of 8 bytes, each (as a big-endian number = ToUint64) strictly
+   greater than the one before *)
+Fixpoint ids_inc (k : nat) (prev : option N) (b : bytes) : bool :=
+  match k with
+  | O => true
+  | S k' =>
+    let x := be_dec (firstn 8 b) in
+    (match prev with Some p => p <? x | None => true end) && ids_inc k' (Some x) (skipn 8 b)
+  end.
+
+Definition scids_ok (ids : bytes) : bool :=
+  Nat.eqb (Nat.modulo (length ids) 8) 0 && ids_inc (Nat.div (length ids) 8) None ids.
+
 Fixpoint strip0 (b : bytes) : bytes :=
   match b with
   | 0 :: r => strip0 r
@@ -402,6 +421,7 @@ Section Fields.
     | FAddrs, VB b => wf_bytesb b && (blen b <=? 65535) &&
                       (match addrs_parse b with Some b' => beq b' b | None => false end)
     | FBigSize, VN x => x <? two64
+    | FScids, VB b => wf_bytesb b && (blen b + 1 <=? 65535) && scids_ok b
     | FRest, VB b => wf_bytesb b
     | FTlvRest, VB b => wf_bytesb b && tlv_valid b
     | _, _ => false
@@ -421,6 +441,8 @@ Section Fields.
     | FAlias, VB b => if Nat.eqb (length b) 32 then Some b else None
     | FAddrs, VB b => if blen b <=? 65535 then Some (be_enc 2 (blen b) ++ b) else None
     | FBigSize, VN x => Some (bigsize_enc x)
+    | FScids, VB b =>
+      if blen b + 1 <=? 65535 then Some (be_enc 2 (blen b + 1) ++ 0 :: b) else None
     | FRest, VB b => Some b
     | FTlvRest, VB b => Some b
     | _, _ => None
@@ -488,6 +510,17 @@ Section Fields.
       end
     | FBigSize =>
       match bigsize_dec b with Ok (v, r) => Some (VN v, r) | Err _ => None end
+    | FScids =>
+      match read_be 2 b with
+      | Some (n, r) =>
+        if n =? 0 then Some (VB [], r) else
+        match take n r with
+        | Some (e :: ids, r') =>
+          if (e =? 0) && scids_ok ids then Some (VB ids, r') else None
+        | _ => None
+        end
+      | None => None
+      end
     | FRest => Some (VB b, [])
     | FTlvRest => if tlv_valid b then Some (VB b, []) else None
     end.
@@ -529,7 +562,11 @@ Section Fields.
 
   (* every field is an exact (non-normalising) codec *)
   Definition exact_f (k : fkind) : bool :=
-    match k with FBool | FFeat | FAddrs => false | _ => true end.
+    match k with FBool | FFeat | FAddrs | FScids => false | _ => true end.
+
+  (* re-encoding a decoded value of this field never takes more bytes than were read *)
+  Definition nogrow_f (k : fkind) : bool :=
+    match k with FScids => false | _ => true end.
 
   (* the layout ends with a rest-of-message field: nothing is ignored *)
   Fixpoint ends_terminal (L : layout) : bool :=
